@@ -26,6 +26,8 @@ def run(rep, facts):
                       "a management body in flight is never cancelled by a call whose timing relative to the chunking the client cannot control")
     rep.rule("R3.15", "the fatal StuckOnInput verdict of the request parser is taken on the buffer fill left after the drive and the compaction (R6.2): "
                       "taken on the fill at call entry, the same byte sequence succeeds or fails depending on the chunking")
+    rep.rule("R3.16", "the length decoder both parsers unwrap / treat as 'incomplete' fails only when its input is truncated and accepts every complete one- or four-byte form "
+                      "(C15 O4 read/forms, O5): otherwise a well-formed pair panics parse_buffered's expect or is never consumed")
     rep.rule("R3.9", "the GetValues name-value decoder sees at most the record's remaining payload and the reply is emitted only for a complete body (otherwise the emitted bytes would depend on read chunking)")
     rep.rule("R3.8", "stream::Parser::parse: every successful return passes the processing loop's entry test (no early-out that would leave buffered records unparsed)")
 
@@ -219,6 +221,20 @@ def run(rep, facts):
             n15 += 1
             (rep.ok if i["status"] == "ok" else rep.violation)("R3.15", i["instance"], i["detail"], i["loc"])
     rep.floor("R3.15", "stuck-verdict instances", n15, 2)
+
+    # ---- R3.16: parse_buffered unwraps VarInt::read on bytes it has counted as complete (`expect("both VarInts should be in the buffer")`), and
+    # NVIter::next reads every decoding error as "pair incomplete, wait for more": both are right only while the decoder fails on
+    # truncated input and on nothing else (C15 O4-read / O5, re-evaluated) -- a decoder that rejects a complete encoding panics the request
+    # parser or stalls the pair for good
+    from . import c15
+    sr = check.Report("tmp", "quick")
+    c15.run_codec(sr, facts)
+    n16 = 0
+    for i in sr.instances:
+        if i["instance"].startswith("read/"):
+            n16 += 1
+            (rep.ok if i["status"] == "ok" else rep.violation)("R3.16", i["instance"], i["detail"], i["loc"])
+    rep.floor("R3.16", "decoder obligations", n16, 2)
 
     # ---- information only: panic-capable sites -----------------------------------------------------------------
     inv = {}
